@@ -9,6 +9,7 @@ CORE = 'beartype/_decor/decorcore.py'
 DESC = 'beartype/_decor/_nontype/_builtin/decorbuiltindescriptor.py'
 BEARFUNC = 'beartype/_util/bear/utilbearfunc.py'
 MK = 'beartype/_util/func/utilfuncmake.py'
+CACHE = 'beartype/_util/cache/utilcacheobjattr.py'
 FLOOR_APPLIED = 10
 
 
@@ -64,11 +65,43 @@ VARIANTS = {
     'wrapper-not-marked': tseeded(NONTYPE, lambda t: replace_where(
         t, src_is('set_func_beartyped(func_checked)'), lambda n: None, scope='beartype_func'), 'C13.R5',
         'decorating twice wraps twice'),
+    # ---- R8 / class idempotence ------------------------------------------------------------------------
+    'type-cache-stored-under-literal-name': tseeded(CACHE, lambda t: replace_where(
+        t, lambda n: isinstance(n, ast.Expr) and ast.unparse(n).startswith('setattr(cls_sizeof, _TYPE_ATTR_CACHE_NAME'),
+        lambda n: stmts('cls_sizeof._TYPE_ATTR_CACHE_NAME = type_to_attr_name_to_value')[0], scope='set_type_attr_cached'), 'C13.R8',
+        'the defect repaired by the fix commit (F20), reintroduced: the class marker is never found again'),
+    'type-cache-per-hierarchy': tseeded(CACHE, lambda t: replace_where(
+        t, src_is('attr_name_to_value = type_to_attr_name_to_value.get(cls)'),
+        lambda n: stmts("attr_name_to_value = type_to_attr_name_to_value.get('*')")[0], scope='get_type_attr_cached_or_sentinel') and replace_where(
+        t, src_is('attr_name_to_value = type_to_attr_name_to_value.get(cls)'),
+        lambda n: stmts("attr_name_to_value = type_to_attr_name_to_value.get('*')")[0], scope='set_type_attr_cached') and replace_where(
+        t, src_is('attr_name_to_value = type_to_attr_name_to_value[cls] = {}'),
+        lambda n: stmts("attr_name_to_value = type_to_attr_name_to_value['*'] = {}")[0], scope='set_type_attr_cached'), 'C13.R8',
+        'an undecorated subclass of a decorated class is taken for decorated'),
+    'class-marker-key-mismatch': tseeded(TYPE, lambda t: replace_where(
+        t, lambda n: isinstance(n, ast.Expr) and ast.unparse(n).startswith('set_type_attr_cached(cls,'),
+        lambda n: stmts("set_type_attr_cached(cls, 'beartyped', True)")[0], scope='beartype_type'), 'C13.R5'),
+    'class-idempotence-guard-dropped': tseeded(TYPE, lambda t: replace_where(
+        t, lambda n: isinstance(n, ast.If) and 'get_type_attr_cached_or_sentinel' in ast.unparse(n.test), lambda n: None,
+        scope='beartype_type'), 'C13.R5', 'decorating a decorated class re-decorates its members'),
+    'qualname-guard-contains-instead-of-prefix': tseeded(TYPE, lambda t: replace_where(
+        t, lambda n: isinstance(n, ast.Call) and ast.unparse(n) == 'attr_value.__qualname__.startswith(cls.__qualname__)',
+        lambda n: expr('cls.__qualname__ in attr_value.__qualname__'), scope='beartype_type'), 'C13.R2',
+        'a class declared elsewhere whose qualified name merely contains the parent name is decorated'),
+    'member-stack-not-extended': tseeded(TYPE, lambda t: replace_where(
+        t, lambda n: isinstance(n, ast.keyword) and n.arg == 'cls_stack' and ast.unparse(n.value) == 'cls_stack',
+        lambda n: ast.keyword(arg='cls_stack', value=expr('cls_stack[:-1] or None')), scope='beartype_type'), 'C13.R2'),
+    'property-unchanged-when-getter-unchecked': tseeded(DESC, lambda t: replace_where(
+        t, src_is('descriptor_getter = beartype_func(func=descriptor_getter, **kwargs)'),
+        lambda n: [n] + stmts('if descriptor_getter is descriptor.fget:\n    return descriptor'),
+        scope='beartype_descriptor_decorator_builtin_property'), 'C13.R4',
+        'an annotated setter of a property with an unannotated getter is left unchecked'),
     # ---- neutral ---------------------------------------------------------------------------------------
     'n-roundtrip-decortype': roundtrip(TYPE),
     'n-roundtrip-decornontype': roundtrip(NONTYPE),
     'n-roundtrip-descriptor': roundtrip(DESC),
     'n-roundtrip-core': roundtrip(CORE),
+    'n-roundtrip-cache': roundtrip(CACHE),
     'n-property-positional': tneutral(DESC, lambda t: replace_where(
         t, lambda n: isinstance(n, ast.Return) and ast.unparse(n.value).startswith('property('),
         lambda n: stmts('return property(descriptor_getter, descriptor_setter, descriptor_deleter, descriptor.__doc__)')[0],
